@@ -146,6 +146,9 @@ def run(chk):
         # Hamiltonian, rate AND Lindblad operator depend on the parameters
         ham_f = lambda x, y: x * sx + y * sz
         gam_f = lambda x, y: 0.1 + 0.05 * x * x
+        if it % 3 == 2:
+            # a rate that depends on the parameters only through their difference (the same value wherever all parameters are equal)
+            gam_f = lambda x, y: 0.1 + 0.4 * (x - y) ** 2
         lop_f = (lambda x, y: np.cos(y) * sm + 0.5 * np.sin(y) * sz) if it % 3 != 2 else (lambda x, y: sm)
         # every run (it == 1): a purely coherent system (no Lindblad terms at all) whose Hamiltonian is complex (a sigma_y control)
         coherent = it == 1
